@@ -151,7 +151,7 @@ def make_stubs(chi_sym, n_outputs, n_err, log):
 def tval(rank):
     """representative time of an order-type rank: distinct ranks are distinct floats that are *nearly* coincident, so that a
     comparison with a tolerance (which would break the parametricity argument) shows up as a violation"""
-    return 1000.0 + 0.001 * rank
+    return 1000.0 + 0.001 * rank + 4.0e-7          # (digits beyond the sixth decimal: rounding the grid is not the identity either)
 
 
 def obs_value(o, j):
@@ -374,7 +374,7 @@ def run_block(rec, n_outputs, max_len):
 
 def tasks():
     out = [('outputs=1', lambda rec: run_block(rec, 1, 3)), ('outputs=2', lambda rec: run_block(rec, 2, 3))]
-    out.append(('outputs=3', lambda rec: run_block(rec, 3, 2) if rec.tier == 'thorough' else None))
+    out.append(('outputs=3', lambda rec: run_block(rec, 3, 2) if rec.tier == 'thorough' else run_block(rec, 3, 1)))       # quick: at most one measurement per output
     return out
 
 
